@@ -27,6 +27,8 @@ fn dispatch(sx: &Sx) -> String {
         "osstr" => modes::lex::osstr(args),
         "cursor" => modes::lex::cursor(args),
         "parse" => modes::parse::parse(args),
+        "lex" => modes::lex::lex(args),
+        "short" => modes::lex::short(args),
         m => format!("unknown-mode {m}"),
     }
 }
